@@ -843,6 +843,7 @@ func cancelWaitingQuery(qid uint64) bool {
 		if wsData.qid == qid {
 			rQuery = wsData.rQuery
 			waitingQueries = append(waitingQueries[:i], waitingQueries[i+1:]...)
+			verifhook.At("q.cancel.unqueued", "qid", qid, "nwait", len(waitingQueries))
 			break
 		}
 	}
@@ -860,6 +861,7 @@ func cancelWaitingQuery(qid uint64) bool {
 	rQuery.rqsLock.Unlock()
 
 	rQuery.StateChan <- &QueryStateChanData{StateName: CANCELLED, Qid: qid}
+	verifhook.At("q.cancel.sent", "qid", qid)
 
 	return true
 }
